@@ -301,6 +301,120 @@ func hasDefaultOnlyFalse(p *packages.Package) bool {
 	return ok
 }
 
+// runFuncTail evaluates the statements of runFunc that follow its loop (the
+// loop is left by `break` when the code has ended, has been stopped or has
+// panicked with no frame left) for every truth value of the three conditions
+// they test: stop != nil (a context with a Done channel was set), env.done == 1,
+// vm.panic != nil. The result says what runFunc returns: 0 nil, 1 the error of
+// the context, 2 vm.panic.
+func runFuncTail(p *packages.Package) [8]int {
+	fd := findMethod(p, "VM", "runFunc")
+	if fd == nil {
+		panic("method VM.runFunc not found")
+	}
+	idx := -1
+	for i, st := range fd.Body.List {
+		if f, ok := st.(*ast.ForStmt); ok && f.Cond == nil && f.Init == nil && f.Post == nil {
+			idx = i
+		}
+	}
+	if idx < 0 {
+		panic("runFunc: the loop over runRecoverable was not found")
+	}
+	tail := fd.Body.List[idx+1:]
+	if len(tail) == 0 {
+		panic("runFunc: no statement after the loop")
+	}
+	var cond func(e ast.Expr, atoms map[string]bool) bool
+	cond = func(e ast.Expr, atoms map[string]bool) bool {
+		switch x := e.(type) {
+		case *ast.ParenExpr:
+			return cond(x.X, atoms)
+		case *ast.UnaryExpr:
+			if x.Op == token.NOT {
+				return !cond(x.X, atoms)
+			}
+		case *ast.BinaryExpr:
+			switch x.Op {
+			case token.LAND:
+				return cond(x.X, atoms) && cond(x.Y, atoms)
+			case token.LOR:
+				return cond(x.X, atoms) || cond(x.Y, atoms)
+			}
+		}
+		s := exprString(e)
+		neg := map[string]string{"stop==nil": "stop!=nil", "vm.panic==nil": "vm.panic!=nil",
+			"atomic.LoadInt32(&vm.env.done)!=1": "atomic.LoadInt32(&vm.env.done)==1", "atomic.LoadInt32(&vm.env.done)==0": "atomic.LoadInt32(&vm.env.done)==1"}
+		if v, ok := atoms[s]; ok {
+			return v
+		}
+		if pos, ok := neg[s]; ok {
+			return !atoms[pos]
+		}
+		panic("runFunc: unexpected condition after the loop: " + s)
+	}
+	// run returns the code of the return statement reached, -1 when the list falls through
+	var run func(list []ast.Stmt, atoms map[string]bool) int
+	run = func(list []ast.Stmt, atoms map[string]bool) int {
+		for _, st := range list {
+			switch s := st.(type) {
+			case *ast.ExprStmt:
+				if c, ok := s.X.(*ast.CallExpr); ok && exprString(c.Fun) == "close" {
+					continue
+				}
+				panic("runFunc: unexpected statement after the loop: " + exprString(s.X))
+			case *ast.IfStmt:
+				if s.Init != nil {
+					panic("runFunc: unexpected if with an init statement after the loop")
+				}
+				if cond(s.Cond, atoms) {
+					if r := run(s.Body.List, atoms); r >= 0 {
+						return r
+					}
+				} else if s.Else != nil {
+					var r int
+					switch e := s.Else.(type) {
+					case *ast.BlockStmt:
+						r = run(e.List, atoms)
+					default:
+						r = run([]ast.Stmt{e}, atoms)
+					}
+					if r >= 0 {
+						return r
+					}
+				}
+			case *ast.ReturnStmt:
+				if len(s.Results) != 1 {
+					panic("runFunc: unexpected return after the loop")
+				}
+				switch r := exprString(s.Results[0]); r {
+				case "nil":
+					return 0
+				case "vm.env.ctx.Err()":
+					return 1
+				case "vm.panic":
+					return 2
+				default:
+					panic("runFunc: unexpected result after the loop: " + r)
+				}
+			default:
+				panic(fmt.Sprintf("runFunc: unexpected statement after the loop: %T", st))
+			}
+		}
+		return -1
+	}
+	var out [8]int
+	for i := 0; i < 8; i++ {
+		atoms := map[string]bool{"stop!=nil": i&4 != 0, "atomic.LoadInt32(&vm.env.done)==1": i&2 != 0, "vm.panic!=nil": i&1 != 0}
+		r := run(tail, atoms)
+		if r < 0 {
+			panic("runFunc: the statements after the loop do not end with a return")
+		}
+		out[i] = r
+	}
+	return out
+}
+
 func readClassification(name string) map[string]string {
 	b, err := os.ReadFile(filepath.Join(checksDir(), name))
 	if err != nil {
@@ -368,6 +482,14 @@ func init() {
 		for _, n := range []string{"OpReceive", "OpSend", "OpSelect", "OpRange"} {
 			fmt.Fprintf(b, "Definition op_%s : N := %d.\n", n, vmConstInt(rt, n))
 		}
+		tail := runFuncTail(rt)
+		fmt.Fprintf(b, "\n(* what runFunc returns when its loop has been left by break, evaluated from the statements that follow\n   the loop for every value of: a context with a Done channel was set (stop != nil), env.done == 1,\n   vm.panic != nil; 0 nil, 1 the error of the context, 2 vm.panic *)\n")
+		fmt.Fprintf(b, "Definition runfunc_tail (has_ctx done pending : bool) : N :=\n  match has_ctx, done, pending with\n")
+		bs := func(v bool) string { return coqBool(v) }
+		for i := 7; i >= 0; i-- {
+			fmt.Fprintf(b, "  | %s, %s, %s => %d\n", bs(i&4 != 0), bs(i&2 != 0), bs(i&1 != 0), tail[i])
+		}
+		b.WriteString("  end.\n")
 		return nil
 	})
 }
@@ -375,12 +497,16 @@ func init() {
 // ---- Facts_vm_writes (C10) ----
 //
 // Every assignment, increment, append-assignment or map/slice element write in
-// internal/runtime and in programs.go / templates.go whose mutated object is
-// reached through a value of one of the types that are shared by all runs of a
-// built artefact (Function, NativeFunction, callable, Registers, Program,
-// Template), every write to a package level variable outside init, and every
-// call of a sync / atomic method on such an object. Joined with the committed
-// classification checks/C10_writes.json.
+// internal/runtime and in the root package (programs.go, templates.go, ...)
+// whose mutated object is reached through a value of one of the types that are
+// shared by all runs of a built artefact (Function, NativeFunction, callable,
+// Registers, Program, Template, and the output of the compiler that Build keeps:
+// compiler.Code, compiler.Global), every write to a package level variable
+// outside init (assignments, element writes, sends and receives on package
+// level channels, delete/clear/copy/close applied to them), every call of a
+// sync / atomic method on such an object, and the inventory of the package
+// level variables themselves (kind pkgvar: a new one must be classified).
+// Joined with the committed classification checks/C10_writes.json.
 
 var sharedTypeNames = map[string]bool{
 	"github.com/open2b/scriggo/internal/runtime.Function":       true,
@@ -389,12 +515,22 @@ var sharedTypeNames = map[string]bool{
 	"github.com/open2b/scriggo/internal/runtime.Registers":      true,
 	"github.com/open2b/scriggo.Program":                         true,
 	"github.com/open2b/scriggo.Template":                        true,
+	"github.com/open2b/scriggo/internal/compiler.Code":          true,
+	"github.com/open2b/scriggo/internal/compiler.Global":        true,
 }
 
 func sharedType(t types.Type) bool {
 	for {
-		if p, ok := t.(*types.Pointer); ok {
-			t = p.Elem()
+		// pointers to, and slices / arrays of, a shared type lead to the shared object
+		switch u := t.(type) {
+		case *types.Pointer:
+			t = u.Elem()
+			continue
+		case *types.Slice:
+			t = u.Elem()
+			continue
+		case *types.Array:
+			t = u.Elem()
 			continue
 		}
 		break
@@ -409,6 +545,10 @@ func sharedType(t types.Type) bool {
 // throughShared reports whether e, or an operand it is selected / indexed /
 // dereferenced from, has a shared type; also whether its root is a package level variable.
 func throughShared(p *packages.Package, e ast.Expr) (shared bool, global bool) {
+	return throughSharedWith(p, e, nil)
+}
+
+func throughSharedWith(p *packages.Package, e ast.Expr, alias map[types.Object][2]bool) (shared bool, global bool) {
 	for {
 		if t := p.TypesInfo.TypeOf(e); t != nil && sharedType(t) {
 			shared = true
@@ -436,6 +576,15 @@ func throughShared(p *packages.Package, e ast.Expr) (shared bool, global bool) {
 			if v, ok := p.TypesInfo.Uses[x].(*types.Var); ok && v.Pkg() != nil && v.Parent() == v.Pkg().Scope() {
 				global = true
 			}
+			if alias != nil {
+				if a, ok := alias[p.TypesInfo.Uses[x]]; ok {
+					shared = shared || a[0]
+					global = global || a[1]
+				}
+			}
+			return
+		case *ast.CallExpr:
+			// a conversion or a method call does not lead to the object
 			return
 		default:
 			return
@@ -445,7 +594,78 @@ func throughShared(p *packages.Package, e ast.Expr) (shared bool, global bool) {
 
 type writeSite struct {
 	key  string
-	kind string // assign, incdec, sync-call, global
+	kind string // assign, incdec, sync-call, global, pkgvar
+}
+
+// aliasesShared lists the local variables of a function body that are defined
+// (or assigned) from an address / element / range value of a shared or package
+// level object of reference kind, e.g. `g := &code.Globals[i]`, `vals := fn.Values`,
+// `for _, g := range p.globals` does not alias (a copy) unless the element is
+// itself a pointer, slice or map. Writes through such a local reach the shared object.
+func aliasesShared(p *packages.Package, body *ast.BlockStmt) map[types.Object][2]bool {
+	out := map[types.Object][2]bool{}
+	refKind := func(t types.Type) bool {
+		if t == nil {
+			return false
+		}
+		switch t.Underlying().(type) {
+		case *types.Pointer, *types.Slice, *types.Map, *types.Chan:
+			return true
+		}
+		return false
+	}
+	note := func(lhs ast.Expr, rhs ast.Expr) {
+		id, ok := lhs.(*ast.Ident)
+		if !ok || id.Name == "_" {
+			return
+		}
+		obj := p.TypesInfo.Defs[id]
+		if obj == nil {
+			obj = p.TypesInfo.Uses[id]
+		}
+		if obj == nil || !refKind(obj.Type()) {
+			return
+		}
+		if v, ok := obj.(*types.Var); ok && v.Pkg() != nil && v.Parent() == v.Pkg().Scope() {
+			return
+		}
+		e := rhs
+		for {
+			if pe, ok := e.(*ast.ParenExpr); ok {
+				e = pe.X
+				continue
+			}
+			break
+		}
+		if u, ok := e.(*ast.UnaryExpr); ok && u.Op == token.AND {
+			e = u.X
+		}
+		sh, gl := throughSharedWith(p, e, out)
+		if sh || gl {
+			prev := out[obj]
+			out[obj] = [2]bool{prev[0] || sh, prev[1] || gl}
+		}
+	}
+	// two passes so that chains of aliases are followed
+	for pass := 0; pass < 2; pass++ {
+		ast.Inspect(body, func(n ast.Node) bool {
+			switch s := n.(type) {
+			case *ast.AssignStmt:
+				if len(s.Lhs) == len(s.Rhs) {
+					for i := range s.Lhs {
+						note(s.Lhs[i], s.Rhs[i])
+					}
+				}
+			case *ast.RangeStmt:
+				if s.Value != nil {
+					// the element variable aliases only when it is of reference kind
+					note(s.Value, &ast.IndexExpr{X: s.X, Index: ast.NewIdent("_")})
+				}
+			}
+			return true
+		})
+	}
+	return out
 }
 
 func sharedWrites(w *world) []writeSite {
@@ -483,6 +703,16 @@ func sharedWrites(w *world) []writeSite {
 				}
 				fname = prefix + fname
 				isInit := fd.Name.Name == "init" && fd.Recv == nil
+				alias := aliasesShared(p, fd.Body)
+				// applied: a builtin or a channel operation that mutates its operand e
+				applied := func(e ast.Expr, what string) {
+					sh, gl := throughSharedWith(p, e, alias)
+					if sh {
+						add(fname, what, "assign")
+					} else if gl && !isInit {
+						add(fname, what, "global")
+					}
+				}
 				lhs := func(e ast.Expr, kind string) {
 					// the mutated object is what the last selector / index is applied to
 					var obj ast.Expr
@@ -501,7 +731,7 @@ func sharedWrites(w *world) []writeSite {
 					default:
 						return
 					}
-					sh, gl := throughShared(p, obj)
+					sh, gl := throughSharedWith(p, obj, alias)
 					if sh {
 						add(fname, exprString(e), kind)
 					} else if gl && !isInit {
@@ -519,7 +749,28 @@ func sharedWrites(w *world) []writeSite {
 						}
 					case *ast.IncDecStmt:
 						lhs(s.X, "incdec")
+					case *ast.SendStmt:
+						applied(s.Chan, exprString(s.Chan)+"<-")
+					case *ast.UnaryExpr:
+						if s.Op == token.ARROW {
+							applied(s.X, "<-"+exprString(s.X))
+						}
+					case *ast.RangeStmt:
+						if t := p.TypesInfo.TypeOf(s.X); t != nil {
+							if _, ok := t.Underlying().(*types.Chan); ok {
+								applied(s.X, "range "+exprString(s.X))
+							}
+						}
 					case *ast.CallExpr:
+						if id, ok := s.Fun.(*ast.Ident); ok && len(s.Args) > 0 {
+							if _, isBuiltin := p.TypesInfo.Uses[id].(*types.Builtin); isBuiltin {
+								switch id.Name {
+								case "delete", "clear", "copy", "close":
+									applied(s.Args[0], id.Name+"("+exprString(s.Args[0])+")")
+								}
+							}
+							return true
+						}
 						se, ok := s.Fun.(*ast.SelectorExpr)
 						if !ok {
 							return true
@@ -543,7 +794,7 @@ func sharedWrites(w *world) []writeSite {
 						if pk := nt.Obj().Pkg().Path(); pk != "sync" && pk != "sync/atomic" {
 							return true
 						}
-						if sh, gl := throughShared(p, se.X); sh || gl {
+						if sh, gl := throughSharedWith(p, se.X, alias); sh || gl {
 							add(fname, exprString(se.X)+"."+se.Sel.Name+"()", "sync-call")
 						}
 					}
@@ -552,8 +803,30 @@ func sharedWrites(w *world) []writeSite {
 			}
 		}
 	}
+	// the package level variables themselves: each one is state that outlives a run
+	inventory := func(p *packages.Package, prefix string) {
+		var names []string
+		sc := p.Types.Scope()
+		for _, n := range sc.Names() {
+			v, ok := sc.Lookup(n).(*types.Var)
+			if !ok {
+				continue
+			}
+			file := filepath.Base(p.Fset.Position(v.Pos()).Filename)
+			if strings.HasSuffix(file, "_test.go") || strings.HasPrefix(file, "verif_") {
+				continue
+			}
+			names = append(names, n)
+		}
+		sort.Strings(names)
+		for _, n := range names {
+			add(prefix+"var", n+" "+types.TypeString(sc.Lookup(n).Type(), func(q *types.Package) string { return q.Name() }), "pkgvar")
+		}
+	}
 	scan(w.pkg("internal/runtime"), nil, "runtime.")
-	scan(w.pkg(""), map[string]bool{"programs.go": true, "templates.go": true}, "scriggo.")
+	scan(w.pkg(""), nil, "scriggo.")
+	inventory(w.pkg("internal/runtime"), "runtime.")
+	inventory(w.pkg(""), "scriggo.")
 	return out
 }
 
@@ -572,9 +845,9 @@ func init() {
 		if err := json.Unmarshal(by, &doc); err != nil {
 			return err
 		}
-		classCode := map[string]int{"per-run-object": 1, "constructor": 2, "sync-pool": 3, "idempotent-cache": 4, "build-time": 5}
-		kindCode := map[string]int{"assign": 0, "incdec": 1, "sync-call": 2, "global": 3}
-		fmt.Fprintf(b, "(* writes whose target is reached through a value shared by all runs of a built artefact, writes to\n   package level variables, calls of sync methods on them: (kind 0 assign 1 incdec 2 sync-call 3 global,\n   class of checks/C10_writes.json: 0 unclassified 1 per-run-object 2 constructor 3 sync-pool 4 idempotent-cache 5 build-time) *)\n")
+		classCode := map[string]int{"per-run-object": 1, "constructor": 2, "sync-pool": 3, "idempotent-cache": 4, "build-time": 5, "immutable-after-init": 6}
+		kindCode := map[string]int{"assign": 0, "incdec": 1, "sync-call": 2, "global": 3, "pkgvar": 4}
+		fmt.Fprintf(b, "(* writes whose target is reached through a value shared by all runs of a built artefact, writes to\n   package level variables, calls of sync methods on them: (kind 0 assign 1 incdec 2 sync-call 3 global 4 package level variable (inventory),\n   class of checks/C10_writes.json: 0 unclassified 1 per-run-object 2 constructor 3 sync-pool 4 idempotent-cache 5 build-time 6 immutable-after-init) *)\n")
 		fmt.Fprintf(b, "Definition shared_writes : list (N * N) := [")
 		seen := map[string]bool{}
 		for i, s := range sites {
